@@ -1,8 +1,12 @@
 #!/bin/sh
-# regenerate lean/LiskVerif/Gen/WriteSkeletons.lean (write skeletons of the block commit / removal path, C13) from /repo
+# regenerate from /repo (VERIF_REPO / VERIF_LEAN override the repository and the Lean project):
+#   lean/LiskVerif/Gen/WriteSkeletons.lean    write skeletons of the block commit / removal path of the engine (C13)
+#   lean/LiskVerif/Gen/WriteSkeletonsFW.lean  write skeletons of the application side: ABIHandler.Commit / revert /
+#                                             Init / Finalize, state batch, diff store, SMT node writes (C16)
 set -e
 cd "$(dirname "$0")"
 export GOFLAGS=-mod=mod GOPROXY=off GOSUMDB=off GOTOOLCHAIN=local
-mkdir -p ../../.build ../../lean/LiskVerif/Gen
+LEAN="${VERIF_LEAN:-../../lean}"
+mkdir -p ../../.build "$LEAN/LiskVerif/Gen"
 go build -o ../../.build/wskelgen .
-../../.build/wskelgen -repo "${VERIF_REPO:-/repo}" -out ../../lean/LiskVerif/Gen/WriteSkeletons.lean
+../../.build/wskelgen -repo "${VERIF_REPO:-/repo}" -out "$LEAN/LiskVerif/Gen/WriteSkeletons.lean" -fwout "$LEAN/LiskVerif/Gen/WriteSkeletonsFW.lean"
